@@ -526,6 +526,16 @@ func randomTokens(r *rand.Rand, g *world.Generated, feeds []string, n int, safeO
 			if r.Intn(12) == 0 && !safeOnly {
 				num = strings.Repeat("9", 19+r.Intn(4))
 			}
+			switch r.Intn(14) {
+			case 0, 1:
+				// decimal whatever the spelling: leading zeros do not make a number octal, and 08 / 09 are 8 and 9
+				num = strings.Repeat("0", 1+r.Intn(2)) + strconv.Itoa(1+r.Intn(14))
+			case 2:
+				if !safeOnly {
+					// numbers that are valid link numbers modulo 2^64, 2^63 or 2^32: they are too large and select nothing
+					num = []string{"18446744073709551617", "36893488147419103233", "18446744073709551618", "9223372036854775809", "4294967297", "4294967298", "18446744073709551616"}[r.Intn(7)]
+				}
+			}
 			end := []string{"\r", ".", ".", "x", "\x1b", "\x7f\x7f"}[r.Intn(6)]
 			out = append(out, tok("number "+num+" then "+strconv.Quote(end), num+end))
 		case x < 82:
